@@ -5,6 +5,7 @@ import conc
 import conn
 import hstress
 import inflight
+import serverlife
 import shutdown
 from common import Scratch, Verdict, build_harness, log, write_evidence
 
@@ -39,6 +40,7 @@ def run_inflight(prop, tier):
             v.violation(x["sig"], x["detail"], x["replay"])
         connres = None
         sd = None
+        sl = None
         if prop == "C10":
             # connection level: events, responses for unknown ids and a refused duplicate send mixed into Conn.tla sessions
             connres = conn.run_conn(s, tier, tb, c10=True)
@@ -53,6 +55,10 @@ def run_inflight(prop, tier):
             # the windows narrower than a step: design check + free-running stress + trace validation
             sd = shutdown.run_shutdown(s, tier, tb)
             for x in sd["violations"]:
+                v.violation(x["sig"], x["detail"], x["replay"])
+            # the server and its registry of connections
+            sl = serverlife.run_serverlife(s, h, tb, tier)
+            for x in sl["violations"]:
                 v.violation(x["sig"], x["detail"], x["replay"])
         if seq["drift"]:
             log("NOTE model drift: %d real traces differ from InFlightSeq but are accepted by InFlightAbs" % seq["drift"])
@@ -94,6 +100,12 @@ def run_inflight(prop, tier):
                                           "call/return history stamped from one atomic counter, validated by InFlightLin.tla against InFlightAbs; big rounds "
                                           "(N >= 64, table filled and drained in bursts): inflight.add / inflight.remove trace points (emitted under the "
                                           "handler's lock, with the table size) validated by InFlightHook.tla"),
+                   server_level=(dict({k: sl[k] for k in sl if k != "violations"},
+                                      rule="ServerLife.tla: start (or a Start that cannot listen), clients connecting, Accept / AcceptAny, Accept for a "
+                                           "connection made elsewhere, peers going away, Close - every session of two small configurations replayed on a "
+                                           "real CqlServer over loopback TCP: call results and registrations as the model says, Close returns, nothing "
+                                           "panics, accepted connections closed, later calls refused, no goroutine left; plus servers closed while their "
+                                           "peers drop (free-running)") if sl else None),
                    shutdown_level=({k: sd[k] for k in sd if k != "violations"} if sd else None),
                    known_findings=sorted(v.known_hits))
         write_evidence(prop, tier, "model_checking", cov, time.time() - t0, unlisted,
